@@ -440,15 +440,25 @@ func runC03(c *Ctx) error {
 		"type T struct {\n\ta int\n}\nfunc (t *T) m(n int) int {\n\tif n == 0 {\n\t\treturn 0\n\t}\n\treturn t.m(n-1) + 1\n}\nt := &T{}\ny := t.m(%d)\nprintln(y)",
 		"var g func(int) int\nfunc f(n int) int {\n\tif n == 0 {\n\t\treturn 0\n\t}\n\th := g\n\treturn h(n-1) + 1\n}\ng = f\nx := f(%d)\nprintln(x)",
 		"func even(n int) bool {\n\tif n == 0 {\n\t\treturn true\n\t}\n\treturn odd(n - 1)\n}\nfunc odd(n int) bool {\n\tif n == 0 {\n\t\treturn false\n\t}\n\treturn even(n - 1)\n}\nprintln(even(%d))",
+		// the recursion passes through a native that calls back into the script (a sort comparator)
+		"import \"golang.org/x/exp/slices\"\nvar depth = 0\nfunc rec() {\n\tdepth++\n\tif depth >= %d {\n\t\treturn\n\t}\n\ts := []int{2, 1}\n\tslices.SortFunc(s, func(a, b int) bool {\n\t\trec()\n\t\treturn a < b\n\t})\n}\nrec()\nprintln(depth)",
+		"import \"golang.org/x/exp/slices\"\nvar depth = 0\nfunc rec() {\n\tdepth++\n\tif depth >= %d {\n\t\treturn\n\t}\n\ts := []int{2, 1}\n\tslices.SortStableFunc(s, func(a, b int) bool {\n\t\trec()\n\t\treturn a < b\n\t})\n}\nrec()\nprintln(depth)",
 	} {
-		for _, depth := range []int{1000, 100000, 3000000} {
+		depths := []int{1000, 100000, 3000000}
+		if strings.Contains(src, "slices.") {
+			depths = []int{100, 1000} // (a call made by a native counts for more)
+			if strings.Contains(src, "slices.SortFunc") {
+				depths = append(depths, 3000000)
+			}
+		}
+		for _, depth := range depths {
 			k := c03Case{Kind: "eval", Src: fmt.Sprintf(src, depth), Free: true}
 			c.Pending(map[string]any{"kind": "eval", "src": k.Src, "note": "a terminating recursion, no instruction budget"})
 			verdict, et := k.run()
 			c.PendingDone()
 			c.Rep.Oracle["no-escape"]++
 			c.Rep.Count("eval-deep-recursion")
-			if verdict == "" && depth <= 100000 && et != "" && et != "<nil>" {
+			if verdict == "" && (depth <= 1000 || depth <= 100000 && !strings.Contains(src, "slices.")) && et != "" && et != "<nil>" {
 				verdict = "a recursion of depth " + fmt.Sprint(depth) + " failed: " + et[:min(len(et), 200)]
 			}
 			if verdict != "" {
